@@ -45,6 +45,12 @@ func traceMain(a []string) int {
 		if res.Fail != nil {
 			class = res.Fail.Class()
 		}
+		if res.Probes[sim.ProbeFreeRun] > 0 {
+			// the schedule was abandoned (a task blocked on a lock whose holder was
+			// parked): from there on the run is not a function of the case
+			fmt.Printf("%s %s %d case=%016x trace=free-running %s\n", prop, scen, i, sim.CaseHash(c), class)
+			continue
+		}
 		fmt.Printf("%s %s %d case=%016x trace=%016x sched=%016x events=%d switches=%d subruns=%d %s\n", prop, scen, i, sim.CaseHash(c), res.Trace, res.SchedSig, res.Events, res.Switches, res.SubRuns, class)
 	}
 	return 0
